@@ -262,7 +262,8 @@ func (g *G) genRandom(id string, opt randOpt) *History {
 						v304 = vary[ri] + "|" + pick(g, "X-B", "User-Agent", "Content-Language")
 					}
 					rp.Hdr = append(rp.Hdr, varyHdr(v304)...)
-					rp.Hdr = append(rp.Hdr, [2]string{"Cache-Control", "max-age=600"})
+					// (… and sometimes forbids storing: a changed Vary does not lift that)
+					rp.Hdr = append(rp.Hdr, [2]string{"Cache-Control", pick(g, "max-age=600", "max-age=600", "max-age=600", "no-store", "no-store, max-age=600")})
 				}
 			}
 		}
@@ -296,7 +297,7 @@ func (g *G) genFaults() []Fault {
 	n := 1 + g.r.Intn(2)
 	for i := 0; i < n; i++ {
 		f := Fault{Stream: pick(g, "fg", "fg", "fg", "bg"), Idx: g.r.Intn(4)}
-		switch g.r.Intn(5) {
+		switch g.r.Intn(6) {
 		case 0:
 			f.Kind = "fail"
 		case 1:
@@ -311,6 +312,14 @@ func (g *G) genFaults() []Fault {
 				// cut the END of the stored bytes (the body, its last chunk, the chunked terminator)
 				f.Bytes = pick(g, "-1", "-2", "-3", "-5", "-7", "-12", "-20")
 			}
+		case 4:
+			if g.chance(0.5) {
+				// the Content-Length line of the stored entry damaged into an absurd number: the entry still parses as HTTP
+				f.Kind = "cl"
+				f.Bytes = pick(g, "9223372036854775807", "1125899906842624", "99999999999999999999", "18446744073709551615", "281474976710656")
+				break
+			}
+			fallthrough
 		default:
 			f.Kind = "flip"
 			f.Bytes = strconv.Itoa(g.r.Intn(200))
@@ -435,15 +444,16 @@ func (g *G) classes() []genClass {
 		}
 		return []genClass{{3, grid}, {4, gridFault}, {3, faults}, {1, sie}, {2, debug(inval)}, {1, debug(status)}, {1, func(g *G, id string) *History { return g.genTruncUnframed(id) }}}
 	case "C03":
-		return []genClass{{8, urls}, {2, inval}, {1, func(g *G, id string) *History { return g.genRootless(id) }}, {1, func(g *G, id string) *History { return g.genHostOverride(id) }}}
+		return []genClass{{8, urls}, {2, inval}, {1, func(g *G, id string) *History { return g.genRootless(id) }}, {1, func(g *G, id string) *History { return g.genHostOverride(id) }},
+			{1, func(g *G, id string) *History { return g.genQueryDots(id) }}}
 	case "C04":
-		return []genClass{{8, vary}, {1, faults}, {1, backends}, {1, func(g *G, id string) *History { return g.genCollide(id) }}}
+		return []genClass{{8, vary}, {1, faults}, {1, backends}, {1, func(g *G, id string) *History { return g.genCollide(id) }}, {1, func(g *G, id string) *History { return g.genVaryReplace(id) }}}
 	case "C07":
 		return []genClass{{7, inval}, {2, urls}, {2, func(g *G, id string) *History { return g.genInvalRace(id) }}, {2, func(g *G, id string) *History { return g.genLocInval(id) }}, {1, func(g *G, id string) *History { return g.genHostOverride(id) }}}
 	case "C08":
 		return []genClass{{4, vary}, {2, grid}, {3, chain}, {2, inval}, {1, swrInval}, {1, func(g *G, id string) *History { return g.genRevalRace(id) }}, {1, func(g *G, id string) *History { return g.genMerge304(id) }}, {1, func(g *G, id string) *History { return g.genVarySpelling(id) }}}
 	case "C19":
-		return []genClass{{3, vary}, {1, inval}, {2, func(g *G, id string) *History { return g.genRepeat(id) }}, {1, swrInval}, {1, func(g *G, id string) *History { return g.genVarySpelling(id) }}}
+		return []genClass{{3, vary}, {1, inval}, {2, func(g *G, id string) *History { return g.genRepeat(id) }}, {1, swrInval}, {1, func(g *G, id string) *History { return g.genVarySpelling(id) }}, {1, faults}, {1, func(g *G, id string) *History { return g.genVaryReplace(id) }}}
 	case "C16":
 		return []genClass{{8, func(g *G, id string) *History { return g.genConcurrent(id) }}, {2, func(g *G, id string) *History { return g.genSWR(id) }}, {1, swrInval}}
 	case "C05":
@@ -452,7 +462,7 @@ func (g *G) classes() []genClass {
 		return []genClass{{8, func(g *G, id string) *History { return g.genSWR(id) }}, {2, grid}, {1, swrInval}}
 	case "C09":
 		return []genClass{{4, urls}, {3, vary}, {3, backends}, {2, chain}, {1, func(g *G, id string) *History { return g.genRootless(id) }}, {1, func(g *G, id string) *History { return g.genHostOverride(id) }},
-			{1, func(g *G, id string) *History { return g.genZoneDates(id) }}}
+			{1, func(g *G, id string) *History { return g.genZoneDates(id) }}, {1, func(g *G, id string) *History { return g.genOldLastModified(id) }}}
 	}
 	return []genClass{{1, grid}}
 }
